@@ -22,7 +22,7 @@ func init() {
 // its twin S' in which the focus node is the same node without Catch, on the same input.
 
 func C05_Jobs() []string {
-	out := []string{"multi-issue/parse", "multi-issue/validate", "ptr-elem/parse", "kinds/parse", "kinds/validate", "redirected/parse", "redirected/validate"}
+	out := []string{"multi-issue/parse", "multi-issue/validate", "ptr-elem/parse", "kinds/parse", "kinds/validate", "redirected/parse", "redirected/validate", "negated/parse", "negated/validate"}
 	for _, j := range shapeJobs() {
 		_, tm, variant, d := split3(j)
 		if tm == "T5" || tm == "T6" || tm == "T7" {
@@ -213,6 +213,38 @@ func c05Extra(kind, mode string) {
 		}
 	case "kinds":
 		c05Kinds(mode, g)
+	case "negated":
+		// a failed NEGATED test of a catching node is caught like any other failed test
+		str := visible("s", 2)
+		sub := visible("sub", 1)
+		v.Assume(len(str) > 0 && len(sub) > 0)
+		mk := func(catch bool) *z.StructSchema {
+			s := z.String().Not().Contains(sub).Not().HasPrefix("t")
+			if catch {
+				s = s.Catch("fallback")
+			}
+			return z.Struct(z.Schema{"a": s, "l": z.Slice(s)})
+		}
+		var d1, d2 struct {
+			A string
+			L []string
+		}
+		var e1, e2 z.ZogIssueMap
+		if mode == "validate" {
+			d1.A, d1.L, d2.A, d2.L = str, []string{str, str}, str, []string{str, str}
+			e1, e2 = mk(true).Validate(&d1), mk(false).Validate(&d2)
+		} else {
+			in := map[string]any{"a": str, "l": []any{str, str}}
+			e1, e2 = mk(true).Parse(in, &d1), mk(false).Parse(in, &d2)
+		}
+		v.Assert(e1 == nil, "C05:catching-node-reported-an-issue")
+		if len(e2["a"]) > 0 {
+			v.Cover("caught")
+			v.Assert(d1.A == "fallback" && len(d1.L) == 2 && d1.L[1] == "fallback" && d1.L[0] == "fallback", "C05:failure-did-not-yield-catch-value")
+		} else {
+			v.Cover("not-caught")
+			v.Assert(d1.A == str && len(d1.L) == 2 && d1.L[1] == str, "C05:catch-value-used-without-failure")
+		}
 	case "redirected":
 		// a failed test of a catching node is caught wherever its issue would have been filed
 		// (IssuePath, IssueCode, Message options on the test)
@@ -276,6 +308,7 @@ func c05Kinds(mode string, g int) {
 	t0 := time.Unix(1000, 0).UTC()
 	tc := time.Unix(77, 0).UTC()
 	kind := v.Choice("kind", 4)
+	var zeroInstant bool
 	key := []string{"f", "t", "b", "s"}[kind]
 	fg := v.Float64("fg")
 	mk := func(catch bool) *z.StructSchema {
@@ -289,6 +322,9 @@ func c05Kinds(mode string, g int) {
 			n = s
 		case 1:
 			s := z.Time().After(t0).Required()
+			if zeroInstant {
+				s = z.Time().Before(t0).Required()
+			}
 			if catch {
 				s = s.Catch(tc)
 			}
@@ -312,6 +348,10 @@ func c05Kinds(mode string, g int) {
 	sec := v.Int64("sec")
 	v.Assume(sec > -(1<<40) && sec < 1<<40)
 	tv := time.Unix(sec, 0).UTC()
+	zeroInstant = mode == "validate" && kind == 1 && v.Choice("zero-instant-in-zone", 2) == 1
+	if zeroInstant {
+		tv = time.Time{}.In(time.FixedZone("CET", 3600)) // a present value (not time.Time{}) that passes Before(t0)
+	}
 	b := v.Bool("b")
 	s := v.String("s", 2)
 	y := v.Int("y")
@@ -342,6 +382,10 @@ func c05Kinds(mode string, g int) {
 		v.Assert(k == "y" || k == "$first", "C05:catching-node-reported-an-issue")
 	}
 	failed := len(e2[key]) > 0
+	if zeroInstant {
+		// a present value that passes its test: nothing fails, nothing is caught
+		v.Assert(!failed && d1.T == tv, "C05:catch-value-used-without-failure")
+	}
 	if failed {
 		v.Cover("caught")
 	} else {
@@ -376,7 +420,7 @@ func c05Kinds(mode string, g int) {
 }
 
 func C05_Run(job string) {
-	if a, b, _, _ := split3(job); a == "multi-issue" || a == "ptr-elem" || a == "kinds" || a == "redirected" {
+	if a, b, _, _ := split3(job); a == "multi-issue" || a == "ptr-elem" || a == "kinds" || a == "redirected" || a == "negated" {
 		c05Extra(a, b)
 		return
 	}
@@ -506,7 +550,7 @@ func C09_Jobs() []string {
 			out = append(out, j)
 		}
 	}
-	out = append(out, "params-order", "input-key-order", "input-case-variants", "options-order/parse", "options-order/validate")
+	out = append(out, "params-order", "input-key-order", "input-case-variants", "options-order/parse", "options-order/validate", "empty-tag-order/parse", "empty-tag-order/validate", "index-map-input")
 	return out
 }
 func C09_Covers() []string { return []string{"both-clean", "both-issues"} }
@@ -591,12 +635,79 @@ func c09Options(mode string) {
 	v.Assert(d1[0] == d2[0] && d1[1].(int) == d2[1].(int) && d1[2] == d2[2], "C09:destination-depends-on-order")
 }
 
+type c09Inner struct {
+	Kind string `zog:""`
+	City string
+	Zip  string
+}
+type c09Outer struct {
+	Inner c09Inner
+	List  []c09Inner
+}
+
+// a field whose tag is the empty string sits next to failing siblings, nested in a struct and in
+// slice items: paths and values are the same whatever order the fields are visited in
+func c09EmptyTag(mode string) {
+	n := v.Choice("city-min", 2) * 9
+	inList := v.Choice("in-list", 2) == 1
+	run := func() (string, string) {
+		var d c09Outer
+		in := z.Struct(z.Schema{"kind": z.String(), "city": z.String().Min(n), "zip": z.String().Min(9)})
+		sc := z.Struct(z.Schema{"inner": in})
+		if inList {
+			sc = z.Struct(z.Schema{"list": z.Slice(in)})
+		}
+		var errs z.ZogIssueMap
+		if mode == "validate" {
+			d = c09Outer{Inner: c09Inner{"k", "c", "z"}, List: []c09Inner{{"k", "c", "z"}}}
+			errs = sc.Validate(&d)
+		} else {
+			rec := map[string]any{"": "k", "city": "c", "zip": "z"}
+			errs = sc.Parse(map[string]any{"inner": rec, "list": []any{rec}}, &d)
+		}
+		keys := ""
+		for _, k := range []string{"inner.city", "inner.zip", "list[0].city", "list[0].zip", "city", "zip", "inner", "list[0]", "$root"} {
+			keys += k + ":" + v.Sprint(len(errs[k])) + ";"
+		}
+		return keys + v.Sprint(len(errs)), d.Inner.Kind + d.Inner.City
+	}
+	e1, d1 := run()
+	e2, d2 := run()
+	v.Cover("both-issues")
+	v.Cover("both-clean")
+	v.Assert(e1 == e2, "C09:issues-depend-on-order")
+	v.Assert(d1 == d2, "C09:destination-depends-on-order")
+}
+
 func C09_Run(job string) {
 	if a, b, _, _ := split3(job); a == "options-order" {
 		c09Options(b)
 		return
+	} else if a == "empty-tag-order" {
+		c09EmptyTag(b)
+		return
 	}
 	switch job {
+	case "index-map-input":
+		// an input map given to a list node (index-keyed, as some form decoders produce): whatever
+		// the library makes of it, it makes the same of it on every run
+		x, y := v.Int("x"), v.Int("y")
+		run := func() (z.ZogIssueMap, []int, []string) {
+			var d struct {
+				Ids  []int
+				Tags []string
+			}
+			errs := z.Struct(z.Schema{"ids": z.Slice(z.Int().GT(5)), "tags": z.Slice(z.String())}).
+				Parse(map[string]any{"ids": map[string]any{"0": x, "2": y, "1": 7}, "tags": map[string]string{"0": "a", "1": "b"}}, &d)
+			return errs, d.Ids, d.Tags
+		}
+		e1, i1, t1 := run()
+		e2, i2, t2 := run()
+		v.Cover("both-issues")
+		v.Cover("both-clean")
+		v.Assert(sameMapsExcept(e1, e2, nil) && (e1 == nil) == (e2 == nil), "C09:issues-depend-on-order")
+		v.Assert(eqIntSlices(i1, i2) && len(t1) == len(t2) && (len(t1) < 1 || t1[0] == t2[0]), "C09:destination-depends-on-order")
+		return
 	case "params-order":
 		// messages do not depend on the iteration order of an issue's params (the engine
 		// permutes the range over the params map in the formatter)
@@ -669,7 +780,7 @@ func C09_Run(job string) {
 // C13 — Parse and Validate agree on fully populated values.
 
 func C13_Jobs() []string {
-	out := []string{"post/prim", "post/struct", "post/slice", "post/catch", "post/slice-tests", "post/custom-writes"}
+	out := []string{"post/prim", "post/struct", "post/slice", "post/catch", "post/slice-tests", "post/custom-writes", "post/empty-tag", "post/embedded-dest"}
 	for _, j := range shapeJobs() {
 		m, _, _, _ := split3(j)
 		if m == "validate" {
@@ -771,6 +882,50 @@ func c13Post(kind string) {
 	}
 	var l1, l2 string
 	switch kind {
+	case "empty-tag":
+		// a destination field tagged with the empty string: the same issues (paths included) and
+		// values in both modes, at the root and nested
+		type in struct {
+			Street string `zog:""`
+			City   string
+		}
+		type out struct {
+			Nick string `zog:""`
+			Home in
+		}
+		sc := z.Struct(z.Schema{"nick": z.String().Min(5), "home": z.Struct(z.Schema{"street": z.String().Min(5), "city": z.String().Min(5)})})
+		d1 := out{Nick: "ab", Home: in{Street: "cd", City: "ef"}}
+		var d2 out
+		e1 := sc.Validate(&d1)
+		e2 := sc.Parse(map[string]any{"": "ab", "home": map[string]any{"": "cd", "city": "ef"}}, &d2)
+		v.Cover("agree-issues")
+		v.Assert(sameFullMaps(e1, e2), "C13:issues-differ-between-modes")
+		v.Assert(d1 == d2, "C13:values-differ-between-modes")
+		return
+	case "embedded-dest":
+		// a destination that embeds a struct (by value): its promoted fields are schema keys
+		type Base struct {
+			ID   int
+			Name string
+		}
+		type Rec struct {
+			Base
+			Age int
+		}
+		g := v.Int("g")
+		sc := z.Struct(z.Schema{"ID": z.Int().GT(g), "name": z.String().Min(2), "age": z.Int().GT(g)})
+		d1 := Rec{Base: Base{ID: x, Name: "n"}, Age: x}
+		var d2 Rec
+		e1 := sc.Validate(&d1)
+		e2 := sc.Parse(map[string]any{"ID": x, "name": "n", "age": x}, &d2)
+		if e1 == nil {
+			v.Cover("agree-clean")
+		} else {
+			v.Cover("agree-issues")
+		}
+		v.Assert(sameFullMaps(e1, e2), "C13:issues-differ-between-modes")
+		v.Assert(d1 == d2, "C13:values-differ-between-modes")
+		return
 	case "custom-writes":
 		// a custom schema function that writes through its pointer (canonicalising the value):
 		// what it wrote is the resulting value in both modes, wherever the custom node sits
